@@ -1,4 +1,72 @@
-/- L3 placeholder: engine model is added in stage B; the driver dispatches unknown ops here. -/
-import Lean.Data.Json
-open Lean
-def engineHandle (op : String) (_ : Json) : Except String Json := throw ("unknown op " ++ op)
+/-
+L3 — the loop of `Registry.run` (norminette/registry.py), parametric in everything that
+concerns the rules: one iteration asks the rule table (`step`) what the first matching
+primary rule is for the remaining tokens.  `σ` is whatever state the rules thread
+(context, scopes, history, diagnostics).
+
+    while context.tokens != []:
+        for rule in rules.primaries: ...          -- `step`
+            ret, jump = self.run_rules(context, rule)
+            if ret is True:
+                if jump <= 0: raise CParsingError            (zero-jump guard)
+                if unrecognized_tkns != []:
+                    if context.debug == 0: raise CParsingError
+                    print(...); unrecognized_tkns = []
+                context.update(); context.pop_tokens(jump); break
+        else:
+            unrecognized_tkns.append(context.tokens[0]); context.pop_tokens(1)
+    if unrecognized_tkns != []:
+        if context.debug == 0: raise CParsingError
+        print(...)
+-/
+namespace Norm
+
+/-- what the rule table answers for one iteration -/
+inductive StepRes (σ : Type)
+  | matched (rule : String) (jump : Int) (s : σ)   -- first primary that returned `True`
+  | noMatch (s : σ)                                -- the `for … else` branch
+  | fatal (msg : String)                           -- a rule raised CParsingError
+  | crash (what : String)                          -- a rule raised anything else
+  | hang                                           -- a rule did not return
+
+/-- one examined statement: the rule that matched, where it starts (index into the
+original token list) and how many tokens it consumed (`min jump remaining`) -/
+structure Segment where
+  rule : String
+  start : Nat
+  len : Nat
+deriving Repr, DecidableEq
+
+inductive EngineOut (σ : Type)
+  | ok (s : σ) (trace : List Segment) (unrecognised : List Nat)   -- indices printed with debug > 0
+  | fatal (msg : String) (trace : List Segment) (unrecognised : List Nat)
+  | crash (what : String)
+  | hang
+
+/-- The loop. `pos` = number of tokens already popped, `n` = tokens remaining,
+`unrec` = `unrecognized_tkns` (as indices), `dropped` = those already printed and reset. -/
+def engineLoop {σ : Type} (step : σ → Nat → StepRes σ) (debug : Nat) :
+    Nat → σ → Nat → Nat → List Segment → List Nat → List Nat → EngineOut σ
+  | 0, _, _, _, _, _, _ => .hang          -- fuel exhausted: unreachable, see `engine_fuel`
+  | fuel + 1, s, pos, n, trace, unrec, dropped =>
+    if n = 0 then
+      if unrec ≠ [] ∧ debug = 0 then .fatal "Unrecognized line" trace (dropped ++ unrec)
+      else .ok s trace (dropped ++ unrec)
+    else
+      match step s pos with
+      | .fatal m => .fatal m trace (dropped ++ unrec)
+      | .crash w => .crash w
+      | .hang => .hang
+      | .noMatch s' => engineLoop step debug fuel s' (pos + 1) (n - 1) trace (unrec ++ [pos]) dropped
+      | .matched rule jump s' =>
+        if jump ≤ 0 then .fatal "Unrecognized line" trace (dropped ++ unrec)
+        else if unrec ≠ [] ∧ debug = 0 then .fatal "Unrecognized line" trace (dropped ++ unrec)
+        else
+          let k := min jump.toNat n
+          engineLoop step debug fuel s' (pos + k) (n - k) (trace ++ [⟨rule, pos, k⟩]) [] (dropped ++ unrec)
+
+/-- `Registry.run` on `n` tokens. -/
+def engineRun {σ : Type} (step : σ → Nat → StepRes σ) (debug : Nat) (s : σ) (n : Nat) : EngineOut σ :=
+  engineLoop step debug (n + 1) s 0 n [] [] []
+
+end Norm
